@@ -3,7 +3,7 @@
 use jvrt::model::body_async;
 use jvrt::prog::*;
 
-fn operand(a: &Act, prog_async: bool, asy: bool, flavor: Flavor) -> String {
+fn operand(a: &Act, prog_async: bool, asy: bool, flavor: Flavor, muts: &[bool]) -> String {
     // callbacks of a sync scope inside an async program live in the `s` sub-module
     let pre = if prog_async && !asy { "s::" } else { "" };
     let id = a.id;
@@ -46,7 +46,11 @@ fn operand(a: &Act, prog_async: bool, asy: bool, flavor: Flavor) -> String {
         Some(c) => {
             let mut s = format!("{{ cap({}); ", c.id);
             for b in &c.snaps {
-                s.push_str(&format!("snap({}, &nb{}); ", c.id, b));
+                if muts.get(*b).copied().unwrap_or(false) {
+                    s.push_str(&format!("snapm({}, &mut nb{}); ", c.id, b));
+                } else {
+                    s.push_str(&format!("snap({}, &nb{}); ", c.id, b));
+                }
             }
             s.push_str(&core);
             s.push_str(" }");
@@ -72,7 +76,7 @@ fn dot_operand(a: &Act, asy: bool) -> String {
 }
 
 /// renders a list of actions; `first_deferred` puts `~` in front of the first operator
-fn acts(out: &mut String, list: &[Act], prog_async: bool, asy: bool, flavor: Flavor, first_deferred: bool) {
+fn acts(out: &mut String, list: &[Act], prog_async: bool, asy: bool, flavor: Flavor, first_deferred: bool, muts: &[bool]) {
     for (i, a) in list.iter().enumerate() {
         out.push(' ');
         if i == 0 && first_deferred {
@@ -82,7 +86,7 @@ fn acts(out: &mut String, list: &[Act], prog_async: bool, asy: bool, flavor: Fla
         out.push_str(tok);
         if let Some(inner) = &a.wrap {
             out.push_str(" >>>");
-            acts(out, inner, prog_async, body_async(a.op, asy), flavor, false);
+            acts(out, inner, prog_async, body_async(a.op, asy), flavor, false, muts);
             if a.closed {
                 out.push_str(" <<<");
             }
@@ -91,7 +95,7 @@ fn acts(out: &mut String, list: &[Act], prog_async: bool, asy: bool, flavor: Fla
             out.push_str(&dot_operand(a, asy));
         } else {
             out.push(' ');
-            out.push_str(&operand(a, prog_async, asy, flavor));
+            out.push_str(&operand(a, prog_async, asy, flavor, muts));
         }
     }
 }
@@ -140,6 +144,7 @@ pub fn macro_body(p: &Prog) -> String {
             format!("{} => {}", h.kind.name(), clo)
         }
     };
+    let muts: Vec<bool> = p.branches.iter().map(|b| b.name.as_ref().map(|n| n.1).unwrap_or(false)).collect();
     let mut parts: Vec<String> = Vec::new();
     for (b, br) in p.branches.iter().enumerate() {
         if let Some(h) = &p.handler {
@@ -158,7 +163,7 @@ pub fn macro_body(p: &Prog) -> String {
             Some(c) => t.push_str(&format!("{{ cap({}); {} }}", c.id, init_core)),
         }
         for (si, cell) in br.steps.iter().enumerate() {
-            acts(&mut t, cell, asy, asy, p.flavor, si > 0);
+            acts(&mut t, cell, asy, asy, p.flavor, si > 0, &muts);
         }
         parts.push(t);
     }
